@@ -27,7 +27,10 @@ CONSTANTS K, V,       \* key ids 1..n / value ids, as in FiniteMap
           MaxLen,     \* longest list
           KeyText,    \* key id -> byte string (sequence of codes); ascending ids have ascending texts
           ValText,    \* value id -> byte string
-          Seps        \* sequence of [s1 |-> bytes, s2 |-> bytes]
+          Seps,       \* sequence of [s1 |-> bytes, s2 |-> bytes]
+          Convs       \* sequence of [name |-> STRING, f |-> [K -> Nat]]: key conversions K2 -> K of the converting constructors;
+                      \* f[k] is the rank of the converted key in the target type's order (equal ranks = the same target key),
+                      \* so f may be non-monotone (int 2, 10, 33 -> texts "10" < "2" < "33") and non-injective (1.2, 1.7 -> 1)
 
 VARIABLES ps,        \* the list
           go         \* FALSE only in the initial state (so that the empty list is the target of a transition, too)
@@ -70,6 +73,20 @@ Split2(t, s1, s2) == LET pcs == SplitBy(t, s1) IN Split2N(pcs, s2, Len(pcs))
 TextMap(m) == [t \in {KeyText[k] : k \in Dom(m)} |-> ValText[m[CHOOSE k \in Dom(m) : KeyText[k] = t]]]
 
 -------------------------------------------------------------------------------
+(* Map<K,T>(const Map<K2,T2>&) / Dic<T>(const Map<K2,T2>&) with a key conversion f: the result is again a finite map - its keys
+   are the images of the source keys, each once, in the TARGET type's order; where several source keys have the same image
+   the documentation does not say which value is kept (the code keeps that of the greatest source key: ConvLast), so any
+   of them is accepted (ConvCands).                                                                                        *)
+ConvDom(m, f) == {f[k] : k \in Dom(m)}
+ConvSrc(m, f, t) == {k \in Dom(m) : f[k] = t}
+ConvCands(m, f, t) == {m[k] : k \in ConvSrc(m, f, t)}
+ConvLast(m, f, t) == m[CHOOSE k \in ConvSrc(m, f, t) : \A x \in ConvSrc(m, f, t) : x <= k]
+ConvSeq(m, f) == LET ts == SetToSortSeq(ConvDom(m, f), <) IN
+                 [i \in 1..Len(ts) |-> [t |-> ts[i], last |-> ConvLast(m, f, ts[i]), cands |-> SetToSortSeq(ConvCands(m, f, ts[i]), <)]]
+Injective(f, S) == \A a, b \in S : f[a] = f[b] => a = b
+Monotone(f, S) == \A a, b \in S : a < b => f[a] < f[b]
+
+-------------------------------------------------------------------------------
 Init == ps = <<>> /\ go = FALSE
 Next == \/ ~go /\ go' = TRUE /\ ps' = ps
         \/ /\ go /\ Len(ps) < MaxLen /\ go' = go
@@ -85,6 +102,13 @@ LastWins == /\ Dom(M) = KeySet(ps)
 LengthOK == Cardinality(Dom(M)) <= Len(ps) /\ (Len(ps) > 0 => Cardinality(Dom(M)) >= 1)
 \* split is the opposite of join
 RoundTrip == \A i \in 1..Len(Seps) : LET sp == Seps[i] IN Split2(Join(M, sp.s1, sp.s2), sp.s1, sp.s2) = TextMap(M)
+\* a converted map is a map: one entry per distinct image; nothing is lost when the conversion is injective on the keys present,
+\* and a monotone conversion keeps the source's order of values
+ConvOK == \A i \in 1..Len(Convs) : LET f == Convs[i].f  e == ConvSeq(M, f) IN
+             /\ Len(e) = Cardinality(ConvDom(M, f)) /\ Len(e) <= Cardinality(Dom(M))
+             /\ (Injective(f, Dom(M)) <=> Len(e) = Cardinality(Dom(M)))
+             /\ \A j \in 1..Len(e) : e[j].last \in ConvCands(M, f, e[j].t) /\ (j > 1 => e[j-1].t < e[j].t)
+             /\ Monotone(f, Dom(M)) => [j \in 1..Len(e) |-> e[j].last] = [j \in 1..Len(EntrySeq(M)) |-> EntrySeq(M)[j].v]
 \* the generated texts stay inside what the documentation describes
 Bytes(t) == {t[i] : i \in 1..Len(t)}
 SepsClean == /\ \A k \in K : KeyText[k] # <<>>
@@ -107,6 +131,8 @@ Emit == LET m == ToMap(ps') IN
                                                      get |-> IF KSeq[j] \in Dom(m) THEN m[KSeq[j]] ELSE 9]],
                        kt |-> [j \in 1..Len(KSeq) |-> [k |-> KSeq[j], t |-> KeyText[KSeq[j]]]],
                        vt |-> [j \in 1..Len(VSeq) |-> [v |-> VSeq[j], t |-> ValText[VSeq[j]]]],
+                       convs |-> [j \in 1..Len(Convs) |-> [name |-> Convs[j].name, es |-> ConvSeq(m, Convs[j].f),
+                                                           src |-> [x \in 1..Len(KSeq) |-> [k |-> KSeq[x], t |-> Convs[j].f[KSeq[x]]]]]],
                        texts |-> [j \in 1..Len(SepSeq) |-> [s1 |-> SepSeq[j].s1, s2 |-> SepSeq[j].s2,
                                                             t |-> Join(m, SepSeq[j].s1, SepSeq[j].s2)]]]))
 ===============================================================================
